@@ -9,6 +9,7 @@
   multiplication, tracks a found-flag, etc. — returns exactly the spec's values.
 -/
 import Frost.Proofs.Honest
+import Frost.Proofs.NafValue
 import Frost.Props.C15
 
 set_option linter.unusedSectionVars false
@@ -141,6 +142,15 @@ theorem groupCommitment_refines (S : Suite F E) (hmsm : MsmSound (E := E) S.leBy
   unfold Spec.computeGroupCommitment
   rw [spec_gc_foldl, zero_add]
   simp [List.map_map, Function.comp_def]
+
+/-- the same with the multiscalar hypothesis discharged: only the encoding law of
+    `little_endian_serialize` is assumed (`msmSound_of_leSound`) -/
+theorem groupCommitment_refines' (S : Suite F E) (hle : LeSound S.leBytes)
+    (pkg : SigningPackage F E) (bfl : List (F × F)) (R : E)
+    (h : Frost.computeGroupCommitment S pkg bfl = .ok R) :
+    R = Spec.computeGroupCommitment
+      (pkg.commitments.map fun c => (c.2.hid, c.2.bnd, rhoAt bfl c.1)) :=
+  groupCommitment_refines S (msmSound_of_leSound S.leBytes hle) pkg bfl R h
 
 /-- **The interpolating value is the RFC's** `Π x_j / Π (x_j − x_i)`. -/
 theorem interpolatingValue_refines (L : List F) (xi : F) (hmem : xi ∈ L) :
